@@ -15,6 +15,7 @@ import Ops.C0506
 import Ops.KdTree
 import Ops.KdEnc
 import Ops.Robust
+import Ops.EbEnc
 /- Line-protocol driver of the executable model: one op per line in, one line out. -/
 open Draco
 
@@ -35,7 +36,8 @@ def allOps : List (String × (List String → String)) := List.flatten [
   Ops.kdTreeOps,
   Ops.kdEncOps,
   Ops.e2ePropsOps,
-  Ops.robustOps]
+  Ops.robustOps,
+  Ops.ebEncOps]
 
 def dispatch (line : String) : String :=
   match (line.trimAscii.toString.splitOn " ").filter (· ≠ "") with
